@@ -150,3 +150,24 @@ async def advance(dt):
     """Let `dt` virtual seconds pass (timers fire at their own virtual times), then settle."""
     await asyncio.sleep(dt)
     await settle()
+
+
+def install_open_connection(handler=None):
+    """Replace asyncio.open_connection (what AsyncFIXClient.connect() calls) by `handler(host, port) -> (reader, writer)`;
+    without a handler every attempt is refused.  Returns undo()."""
+    saved = asyncio.open_connection
+
+    async def _open(host=None, port=None, *a, **k):
+        if handler is None:
+            raise ConnectionRefusedError("vf: no listener")
+        r = handler(host, port)
+        if asyncio.iscoroutine(r):
+            r = await r
+        return r
+
+    asyncio.open_connection = _open
+
+    def undo():
+        asyncio.open_connection = saved
+
+    return undo
